@@ -25,13 +25,15 @@ Definition nat_of_dec (s : bytes) : option nat := option_map N.to_nat (N_of_dec 
 Definition dec_of_nat (n : nat) : bytes := dec_of_N (N.of_nat n).
 
 (* ---- the case ---- *)
-Definition parse_call (s : bytes) : option (okind * option nat) :=
+(* how the call's sendmsg behaves: fails / answers Pending n times, then accepts / lets the bytes out and returns at the next poll *)
+Inductive wscript := WsFail | WsPend (n : nat) | WsLate.
+Definition parse_call (s : bytes) : option (okind * wscript) :=
   match s with
   | k :: r =>
       let kind := if beq k "m"%byte || beq k "p"%byte then Some OKCall
                   else if beq k "f"%byte then Some OKFlags
                   else if beq k "n"%byte then Some OKNoReply else None in
-      let wd := if lbeq r (B "x") then Some None else option_map Some (nat_of_dec r) in
+      let wd := if lbeq r (B "x") then Some WsFail else if lbeq r (B "L") then Some WsLate else option_map WsPend (nat_of_dec r) in
       match kind, wd with Some k', Some w => Some (k', w) | _, _ => None end
   | [] => None
   end.
@@ -41,7 +43,7 @@ Definition parse_wev (s : bytes) : option wev :=
   match s with
   | c :: r => match nat_of_dec r with
               | Some n => if beq c "s"%byte then Some (WPend n) else if beq c "w"%byte then Some (WDone n)
-                          else if beq c "x"%byte then Some (WFail n) else None
+                          else if beq c "x"%byte then Some (WFail n) else if beq c "l"%byte then Some (WLate n) else None
               | None => None
               end
   | [] => None
@@ -180,7 +182,7 @@ Definition parse_line (t : bytes) : option (bytes * oline) :=
 Fixpoint indexed {A} (n : nat) (l : list A) : list (nat * A) :=
   match l with [] => [] | x :: r => (n, x) :: indexed (S n) r end.
 
-Record mst := { ms_sys : sys; ms_wd : list (option nat); ms_next : nat }.
+Record mst := { ms_sys : sys; ms_wd : list wscript; ms_next : nat }.
 
 Definition serial_of (i : nat) : N := N.of_nat (S i).
 Definition stray_serial : N := 0%N.
@@ -214,15 +216,34 @@ Definition poll_recv (i : nat) (s : sys) : verdict (sys * pres) :=
   end.
 
 (* the sending part: sendmsg answers Pending wd times, then accepts (or fails) *)
+(* send_message returns after the bytes had gone out at an earlier poll *)
+Definition poll_ret (i : nat) (k : ckind) (st : mst) (s : sys) : verdict (mst * list wev * pres) :=
+  let n := nrecv (ch s) in
+  match step (LRet i) s with
+  | None => Bad (B "model-stuck")
+  | Some s' =>
+      match k with
+      | KNoReply => Good ({| ms_sys := s'; ms_wd := ms_wd st; ms_next := ms_next st |}, [WDone n], PNone)
+      | _ => match poll_recv i s' with
+             | Good (s2, p) => Good ({| ms_sys := s2; ms_wd := ms_wd st; ms_next := ms_next st |}, [WDone n], p)
+             | Bad w => Bad w
+             end
+      end
+  end.
+
 Definition poll_send (i : nat) (k : ckind) (st : mst) (s : sys) : verdict (mst * list wev * pres) :=
   let n := nrecv (ch s) in
-  match nth i (ms_wd st) (Some 0) with
-  | None => match step (LSend i false) s with
+  match nth i (ms_wd st) (WsPend 0) with
+  | WsLate => match step (LWire i) s with
+              | Some s' => Good ({| ms_sys := s'; ms_wd := ms_wd st; ms_next := ms_next st |}, [WLate n], PPending)
+              | None => Bad (B "model-stuck")
+              end
+  | WsFail => match step (LSend i false) s with
             | Some s' => Good ({| ms_sys := s'; ms_wd := ms_wd st; ms_next := ms_next st |}, [WFail n], PIo IoOther)
             | None => Bad (B "model-stuck")
             end
-  | Some (S d) => Good ({| ms_sys := s; ms_wd := upd (ms_wd st) i (Some d); ms_next := ms_next st |}, [WPend n], PPending)
-  | Some O => match step (LSend i true) s with
+  | WsPend (S d) => Good ({| ms_sys := s; ms_wd := upd (ms_wd st) i (WsPend d); ms_next := ms_next st |}, [WPend n], PPending)
+  | WsPend O => match step (LSend i true) s with
               | None => Bad (B "model-stuck")
               | Some s' =>
                   match k with
@@ -265,6 +286,7 @@ Definition poll_model (i : nat) (ws : list wev) (st : mst) : verdict (mst * list
       | CInit => match step (LSub i) s with Some s1 => try_lock s1 | None => Bad (B "model-stuck") end
       | CSubscribed => try_lock s
       | CSending => poll_send i (c_kind c) st s
+      | CWritten => poll_ret i (c_kind c) st s
       | CWaiting => match poll_recv i s with
                     | Good (s', p) => Good ({| ms_sys := s'; ms_wd := ms_wd st; ms_next := ms_next st |}, [], p)
                     | Bad w => Bad w
@@ -274,7 +296,7 @@ Definition poll_model (i : nat) (ws : list wev) (st : mst) : verdict (mst * list
 
 Definition wev_eqb (a b : wev) : bool :=
   match a, b with
-  | WPend x, WPend y | WDone x, WDone y | WFail x, WFail y => Nat.eqb x y
+  | WPend x, WPend y | WDone x, WDone y | WFail x, WFail y | WLate x, WLate y => Nat.eqb x y
   | _, _ => false
   end.
 Fixpoint list_eqb {A} (f : A -> A -> bool) (a b : list A) : bool :=
@@ -455,7 +477,7 @@ Definition run_case (line : bytes) : outp :=
                         if negb (is_prefix steps (map fst ls)) then B "the-recorded-steps-are-not-the-steps-of-the-case"
                         else if Nat.eqb capacity 0 then B "capacity-0"
                         else replay 0 h {| ms_sys := s0; ms_wd := map snd cs; ms_next := 0 |} in
-                      let spec := spec_check tmo (map (fun p => (fst p, match snd p with None => true | Some _ => false end)) cs) h in
+                      let spec := spec_check tmo (map (fun p => (fst p, match snd p with WsFail => true | _ => false end)) cs) h in
                       let cls := if existsb (fun t => match t with c :: _ => beq c "Y"%byte || beq c "W"%byte | [] => false end) steps
                                  then B "return_rule_hijack" else dash in
                       {| o_model := model; o_spec := spec; o_class := cls |}
